@@ -679,6 +679,41 @@ class Engine:
             if ty.cls == "TextOut" and attr == "write":
                 return [(s, Val(TFunc(), ("textout-write", recv)))]
             con = find_contract(ty.cls, attr)
+            # dynamic dispatch: a subclass may override the member (Scaffold.length / OverlapResult.length)
+            over = {}
+            for c in subclasses(ty.cls):
+                cc = find_contract(c, attr)
+                if c != ty.cls and cc is not None and cc is not con:
+                    over.setdefault(id(cc), (cc, []))[1].append(c)
+            if con is not None and over and not getattr(self, "_no_dispatch", False) and not getattr(ty, "exact", False):
+                cm = class_map(s)
+                alts = list(over.values())
+                if con.kind == "property" and con.pure is not None and all(cc.kind == "property" and cc.pure is not None for cc, _ in alts):
+                    # pure properties: one conditional value, no fork
+                    base = self.call_contract(con, {"self": recv}, s, exc, line)
+                    (s1, val) = base[0]
+                    z = pack(val)
+                    for cc, classes in alts:
+                        sub = Val(TRef(classes[0]), recv.z)
+                        (s1, v2) = self.call_contract(cc, {"self": sub}, s1, exc, line)[0]
+                        z = z3.If(z3.Or(*[cm[recv.z] == CLASSES[c]["id"] for c in classes]), pack(v2), z)
+                    return [(s1, unpack(val.ty, z))]
+                out = []
+                rest = z3.BoolVal(True)
+                for cc, classes in alts:
+                    cond = z3.Or(*[cm[recv.z] == CLASSES[c]["id"] for c in classes])
+                    rest = z3.And(rest, z3.Not(cond))
+                    for s2, side in self.fork(s, cond, line):
+                        if side:
+                            out.extend(self.get_attr(s2, Val(TRef(classes[0]), recv.z), attr, exc, line))
+                for s2, side in self.fork(s, rest, line):
+                    if side:
+                        self._no_dispatch = True
+                        try:
+                            out.extend(self.get_attr(s2, recv, attr, exc, line))
+                        finally:
+                            self._no_dispatch = False
+                return out
             if con is not None and con.kind == "property":
                 return self.call_contract(con, {"self": recv}, s, exc, line)
             if con is not None:
@@ -991,6 +1026,44 @@ class Engine:
             return node._pyvc_type
         return default
 
+    def ev_ListComp(self, e, st, exc):
+        """[f(x) for x in xs]: a new list of the same length whose k-th element is f(xs[k]).  The element expression
+        is evaluated once, on an arbitrary element (so its safety obligations hold for every element); it must have
+        exactly one outcome and may not write to the heap."""
+        if len(e.generators) != 1 or e.generators[0].ifs or e.generators[0].is_async or not isinstance(e.generators[0].target, ast.Name):
+            raise OutOfSubset(f"list comprehension form at L{e.lineno}")
+        g = e.generators[0]
+        out = []
+        for s, xs in self.ev(g.iter, st, exc):
+            if not isinstance(xs.ty, TList):
+                raise OutOfSubset(f"list comprehension over {xs.ty} at L{e.lineno}")
+            src = ListView(s, xs.z, xs.ty.elem)
+            n, sarr, slo = src.len, src.arr, src.lo
+            k = z3.Int(f"k!comp{smt._fresh_n[0]}")
+            smt._fresh_n[0] += 1
+            s0 = s.clone()
+            s0.assume(z3.And(0 <= k, k < n))
+            fr = Frame(s0.cur, s0.frames[s0.cur].func)
+            fr.vars[g.target.id] = unpack(xs.ty.elem, sarr[_plus(slo, k)])
+            s0.frames.append(fr)
+            s0.cur = len(s0.frames) - 1
+            heap_before = dict(s0.heap)
+            res = self.ev(e.elt, s0, exc)
+            if len(res) != 1:
+                raise OutOfSubset(f"list comprehension element with several outcomes at L{e.lineno}")
+            s1, v = res[0]
+            if any(not s1.heap[m].eq(heap_before[m]) for m in heap_before) or len(s1.heap) != len(heap_before) and any(m not in heap_before and not s1.heap[m].eq(z3.Const(f"{m}@0", s1.heap[m].sort())) for m in s1.heap):
+                raise OutOfSubset(f"list comprehension element writes to the heap at L{e.lineno}")
+            for m in s1.heap:
+                s.heap.setdefault(m, s1.heap[m])
+            ety = v.ty
+            new = s.new_ref()
+            arr = smt.fresh("comp", z3.ArraySort(smt.Int, ety.sort()))
+            set_list(s, ety, new, arr=arr, lo=z3.IntVal(0), hi=n)
+            s.assume(z3.ForAll([k], z3.Implies(z3.And(0 <= k, k < n), arr[k] == pack(v, ety)), patterns=[arr[k]]))
+            out.append((s, Val(TList(ety), new)))
+        return out
+
     def ev_Dict(self, e, st, exc):
         if e.keys:
             try:
@@ -1141,6 +1214,10 @@ class Engine:
         if isinstance(ty, TRow) and isinstance(v.ty, TRow):
             return Val(ty, v.z)
         if isinstance(ty, TRef) and isinstance(v.ty, TRef):
+            if getattr(ty, "exact", False) and not getattr(v.ty, "exact", False):
+                # the slot is declared to hold objects of exactly this class
+                self.oblige(s, f"{what}: object of class {ty.cls} itself", "safety", class_map(s)[v.z] == CLASSES[ty.cls]["id"], line)
+                return Val(ty, v.z)
             return v
         if ty == REAL and v.ty == INT:
             return Val(REAL, z3.ToReal(v.z))
@@ -1361,7 +1438,7 @@ class Engine:
             ref = s.new_ref()
             cm = class_map(s)
             s.heap["H.$class"] = z3.Store(cm, ref, z3.IntVal(CLASSES[cls]["id"]))
-            self_v = Val(TRef(cls), ref)
+            self_v = Val(TRef(cls, exact=True), ref)
             args = self.bind_contract(con, [self_v] + pos, kw, line)
             out = []
             for s2, _ in self.call_contract(con, args, s, exc, line):
@@ -2254,6 +2331,8 @@ class Engine:
 
                 outs.extend(self.cut_loop(stmt, s, ordinal, spec, head, advance, stmt.body, hidden=[hid]))
             return outs + exc0
+        if isinstance(it, ast.Call) and isinstance(it.func, ast.Name) and it.func.id == "zip" and len(it.args) == 2:
+            return self.for_zip(stmt, st, ordinal, spec, hid)
         enum = isinstance(it, ast.Call) and isinstance(it.func, ast.Name) and it.func.id == "enumerate"
         src = it.args[0] if enum else it
         for s, lst in self.ev(src, st, exc0):
@@ -2291,6 +2370,47 @@ class Engine:
                         for s3 in self.assign_target(stmt.target, v, s2, exc):
                             res.append((s3, True))
                     else:
+                        res.append((s2, False))
+                return res
+
+            def advance(s1):
+                s1.assign(hid, mk_int(s1.lookup(hid).z + 1))
+
+            outs.extend(self.cut_loop(stmt, s, ordinal, spec, head, advance, stmt.body, hidden=[hid]))
+        return outs + exc0
+
+    def for_zip(self, stmt, st, ordinal, spec, hid):
+        """for a, b in zip(xs, ys[, strict=True]): pairs of elements with the same index, as many as the shorter
+        list has; with strict=True a ValueError if the lengths differ (raised when the shorter one is exhausted)"""
+        it = stmt.iter
+        strict = any(k.arg == "strict" and isinstance(k.value, ast.Constant) and k.value.value is True for k in it.keywords)
+        if any(k.arg != "strict" for k in it.keywords):
+            raise OutOfSubset("zip keywords")
+        exc0 = []
+        outs = []
+        for s, (xs, ys) in self.ev_seq(it.args, st, exc0):
+            if not (isinstance(xs.ty, TList) and isinstance(ys.ty, TList)):
+                raise OutOfSubset(f"zip over {xs.ty}, {ys.ty} at L{stmt.lineno}")
+            s.assign(hid, mk_int(0))
+            s.assign(hid + "_seq", xs)
+            s.assign(hid + "_seq2", ys)
+
+            def head(s1, exc, xs=xs, ys=ys):
+                i = s1.lookup(hid).z
+                a, b = ListView(s1, xs.z, xs.ty.elem), ListView(s1, ys.z, ys.ty.elem)
+                res = []
+                for s2, side in self.fork(s1, z3.And(i < a.len, i < b.len), stmt.lineno):
+                    if side:
+                        a2, b2 = ListView(s2, xs.z, xs.ty.elem), ListView(s2, ys.z, ys.ty.elem)
+                        s2.assume(i >= 0)
+                        pair = (unpack(xs.ty.elem, a2.arr[_plus(a2.lo, i)]), unpack(ys.ty.elem, b2.arr[_plus(b2.lo, i)]))
+                        v = Val(TTuple([p.ty for p in pair]), pair)
+                        for s3 in self.assign_target(stmt.target, v, s2, exc):
+                            res.append((s3, True))
+                    else:
+                        if strict:
+                            a2, b2 = ListView(s2, xs.z, xs.ty.elem), ListView(s2, ys.z, ys.ty.elem)
+                            self.guard(s2, exc, "ValueError", a2.len == b2.len, "zip(strict=True) of lists of different length", stmt.lineno)
                         res.append((s2, False))
                 return res
 
